@@ -56,7 +56,7 @@ class ConvSim(WorldBase):
 
     @classmethod
     def gen_config(cls, prop, rng, tier):
-        return {"mode": rng.choice(["rand", "rand", "yaml", "yaml", "yaml"]), "max_events": 1500,
+        return {"mode": rng.choice(["rand", "rand", "yaml", "yaml", "yaml", "nest"]), "max_events": 1500,
                 "explicit": rng.choice([0.0, 0.2, 0.5])}
 
     def __init__(self, prop, cfg, scratch):
@@ -84,7 +84,9 @@ class ConvSim(WorldBase):
     def generate(self, streams):
         g = streams["gen"]
         if self.q is None:
-            self.q = self._plan_rand(g, streams["env"]) if self.cfg["mode"] == "rand" else self._plan_yaml(g)
+            mode = self.cfg["mode"]
+            self.q = self._plan_rand(g, streams["env"]) if mode == "rand" else \
+                (self._plan_nest(g) if mode == "nest" else self._plan_yaml(g))
             self.stage = 0
         if self.q:
             return self.q.pop(0)
@@ -153,9 +155,110 @@ class ConvSim(WorldBase):
                                       "spec": self._spec(g, [4, 4], 0, dens=1.0) if pre == "older_longer" else [[0, 1]],
                                       "name": "older", "value": 1}])
                 evs.append(["dump", {"obj": key + "x", "path": path}])
+                if g.random() < 0.6:
+                    # the same path is loaded, rewritten and loaded again within one process
+                    evs.append(["load", {"obj": key + "x", "path": path}])
             evs.append(["dump", {"obj": key, "path": path, "count": True}])
             evs.append(["load", {"obj": key, "path": path}])
         return evs
+
+    def _plan_nest(self, g):
+        """piggy-back (pure clauses (a)/(b) of C13): nests of depth 1-4, int / float entries, all-default nests,
+        all-default inner planes, non-zero defaults, fiber and tensor form, dictionary form"""
+        evs = []
+        for _ in range(g.randint(3, 8)):
+            depth = g.randint(1, 4)
+            dims = [g.randint(1, 3) for _ in range(depth)]
+            default = g.choice([0, 0, 0, 5])
+            kind = g.choice(["rand", "rand", "alldef", "plane", "full"])
+            dens = {"rand": g.choice([0.2, 0.6]), "alldef": 0.0, "plane": 0.7, "full": 1.0}[kind]
+            fl = g.random() < 0.25
+
+            def mk(level):
+                if level == depth - 1:
+                    out = []
+                    for _ in range(dims[level]):
+                        if g.random() < dens:
+                            self.uniq += 1
+                            v = self.uniq + (0.5 if fl else 0)
+                            out.append(v if v != default else v + 1)
+                        else:
+                            out.append(default)
+                    return out
+                return [mk(level + 1) for _ in range(dims[level])]
+            nest = mk(0)
+            if kind == "plane" and depth >= 2:
+                # one inner plane entirely default
+                def blank(n):
+                    return [blank(x) for x in n] if isinstance(n, list) else default
+                nest[g.randrange(dims[0])] = blank(nest[0])
+            evs.append(["nest", {"nest": nest, "dims": dims, "default": default, "form": g.choice(["tensor", "fiber"])}])
+        return evs
+
+    def ev_nest(self, a):
+        import copy
+        nest, dims, default = a["nest"], a["dims"], a["default"]
+        self.nrand += 1
+        want = {}
+
+        def rec(n, pt):
+            if isinstance(n, list):
+                for i, x in enumerate(n):
+                    rec(x, pt + (i,))
+            elif n != default:
+                want[pt] = n
+        rec(nest, ())
+        try:
+            if a["form"] == "tensor":
+                t = Tensor.fromUncompressed([f"R{i}" for i in range(len(dims))], copy.deepcopy(nest), default=default)
+                root = t.getRoot()
+                shape = t.getShape()
+            else:
+                root = Fiber.fromUncompressed(copy.deepcopy(nest), default=default)
+                shape = root.getShape()
+        except Exception as e:
+            self.V("C13", "C13.nest", "nest", f"fromUncompressed raised {type(e).__name__}: {str(e)[:80]} for {nest}")
+            return {"status": "exc"}
+        got = ob.content(root, default)
+        if got != want:
+            self.V("C13", "C13.nest", "nest", f"fromUncompressed({nest}, default={default}) holds {got}, the nest's non-default entries are {want}")
+        if a["form"] == "tensor" and list(shape) != list(dims):
+            self.V("C13", "C13.nest", "nest", f"fromUncompressed({nest}) reports shape {shape}, the nest's dimensions are {dims}")
+        if a["form"] == "fiber" and want and list(shape) != list(dims):
+            self.V("C13", "C13.nest", "nest", f"Fiber.fromUncompressed({nest}) reports shape {shape}, the nest's dimensions are {dims}")
+        # no explicit defaults stored, no empty sub-fibers
+        def stored_defaults(f, path=()):
+            bad = []
+            for c, p in zip(f.coords, f.payloads):
+                if isinstance(p, Fiber):
+                    if len(p.coords) == 0:
+                        bad.append(path + (c,))
+                    bad += stored_defaults(p, path + (c,))
+                elif (p.value if isinstance(p, Payload) else p) == default:
+                    bad.append(path + (c,))
+            return bad
+        bad = stored_defaults(root)
+        if bad:
+            self.V("C13", "C13.nest", "nest", f"fromUncompressed({nest}) stores explicit defaults / empty sub-fibers at {bad[:4]}")
+        try:
+            back = root.uncompress(list(dims))
+        except Exception as e:
+            self.V("C13", "C13.nest", "nest", f"uncompress({dims}) raised {type(e).__name__}: {str(e)[:60]} for {nest}")
+            return {"status": "exc"}
+        if back != nest:
+            self.V("C13", "C13.nest", "nest", f"uncompress({dims}) returned {back}, the original nest is {nest}")
+        # (b) the dictionary form
+        try:
+            f2 = Fiber.dict2fiber(root.fiber2dict())
+        except Exception as e:
+            self.V("C13", "C13.dict", "nest", f"dictionary round trip raised {type(e).__name__}")
+            return {"status": "exc"}
+        if ob.enc_fiber(f2) != ob.enc_fiber(root):
+            self.V("C13", "C13.dict", "nest", f"dict2fiber(fiber2dict(f)) differs from f for {nest}")
+        self.probe("nest_roundtrip_checked")
+        if not want:
+            self.probe("nest_all_default")
+        return {"points": len(want)}
 
     def _spec(self, g, shape, level, dens=None):
         S = shape[level]
